@@ -143,21 +143,37 @@ def good_tree(rng, fields, depth=2):
     return t
 
 
+# secret-looking names for fields that are NOT declared sensitive (only the declaration counts, never the name);
+# sensitive fields mostly get the neutral names of s_configops
+SECRETISH = ["password", "passwd", "password_min_length", "secret", "secret_rotation_days", "token", "token_ttl", "api_key", "apikey",
+             "API_KEY", "key", "private", "credential", "auth", "pin", "pw", "salt", "digest", "cipher", "mask", "sensitive"]
+SECRETISH_SUB = ["auth", "credential", "secrets", "private", "api_keys"]
+SECRETISH_LIST = ["tokens", "passwords", "api_keys", "secrets"]
+
+
 def directed_fields(rng, depth):
     """unconstrained leaves of every kind, about half of them sensitive, at this level, in sub-configurations and list items"""
     kinds = [("str", None, None, False, False), ("int", None, None), ("bool",), ("any",), ("str", None, None, False, False)]
     fields = []
-    for k in rng.sample(_base.KEYS, rng.randint(1, 4)):
+    used = set()
+    for k in rng.sample(_base.KEYS, rng.randint(1, 3)) + rng.sample(SECRETISH, rng.choice([0, 1, 1, 2, 3])):
+        if k in used:
+            continue
+        used.add(k)
         kind = rng.choice(kinds)
-        sens = rng.random() < 0.55
+        sens = rng.random() < (0.15 if k in SECRETISH else 0.65)
         nd = _leaf(kind, sens)
-        nd["default"] = rng.choice([None, good_value(rng, nd)])
+        nd["default"] = rng.choice([None, good_value(rng, nd), good_value(rng, nd)])
         fields.append((k, nd))
     if depth > 0:
-        for k in rng.sample(_base.SUBKEYS, rng.choice([0, 1, 1, 2])):
-            fields.append((k, {"t": "sub", "dyn": rng.random() < 0.2, "vals": [], "fields": directed_fields(rng, depth - 1)}))
-        for k in rng.sample(_base.LISTKEYS, rng.choice([0, 1, 1])):
-            fields.append((k, {"t": "cfglist", "required": False, "vals": [], "fields": directed_fields(rng, depth - 1)}))
+        for k in rng.sample(_base.SUBKEYS + SECRETISH_SUB, rng.choice([0, 1, 1, 2])):
+            if k not in used:
+                used.add(k)
+                fields.append((k, {"t": "sub", "dyn": rng.random() < 0.2, "vals": [], "fields": directed_fields(rng, depth - 1)}))
+        for k in rng.sample(_base.LISTKEYS + SECRETISH_LIST, rng.choice([0, 1, 1])):
+            if k not in used:
+                used.add(k)
+                fields.append((k, {"t": "cfglist", "required": False, "vals": [], "fields": directed_fields(rng, depth - 1)}))
     rng.shuffle(fields)
     return fields
 
@@ -196,16 +212,27 @@ def matrix_cases():
     sub = [("key", _leaf(("any",), True)), ("inner", {"t": "sub", "dyn": False, "vals": [], "fields": inner}),
            ("on", _leaf(("bool",), True)), ("port", _leaf(("int", None, None), False, 8080)),
            ("rows", {"t": "cfglist", "required": False, "vals": [], "fields": [("pw", _leaf(S, True)), ("v", _leaf(S, False))]})]
+    # fields with secret-looking NAMES that are not declared sensitive: rendered exactly as without a mask
+    I = ("int", None, None)
+    item += [("token", _leaf(S, False, "item-token-label")), ("apikey", _leaf(("any",), False, "item-apikey-id"))]
+    inner += [("passwd", _leaf(S, False, "/etc/passwd-like-path")), ("salt", _leaf(I, False, 16))]
+    sub += [("token_ttl", _leaf(I, False, 3600)), ("secret_rotation_days", _leaf(I, False, 30)),
+            ("auth", {"t": "sub", "dyn": False, "vals": [], "fields": [("secret", _leaf(S, False, "auth-secret-label")),
+                                                                       ("level", _leaf(S, True, "auth-level-hidden"))]})]
     fields = [("pw", _leaf(S, True)), ("name", _leaf(S, False, "public-name")), ("pin", _leaf(("int", None, None), True, 0)),
               ("flag", _leaf(("bool",), True, None)), ("sub", {"t": "sub", "dyn": False, "vals": [], "fields": sub}),
               ("items", {"t": "cfglist", "required": False, "vals": [], "fields": item}),
-              ("c", _leaf(("any",), False, [1, 2]))]
+              ("c", _leaf(("any",), False, [1, 2])),
+              ("password_min_length", _leaf(I, False, 8)), ("api_key", _leaf(S, False, "public-api-key-id")),
+              ("API_KEY", _leaf(("bool",), False, True)), ("password", _leaf(("any",), False, "password-policy-name")),
+              ("tokens", {"t": "cfglist", "required": False, "vals": [], "fields": [("id", _leaf(S, True)), ("private", _leaf(S, False, "no"))]})]
     loads = [
         {},
         {"pw": "topsecret", "pin": 4711, "flag": True,
          "sub": {"key": "k3y-material-0001", "on": False, "inner": {"tok": "x"},
                  "rows": [{"pw": "row-secret-aaaa", "v": "row-public"}]},
-         "items": [{"pw": "item-secret-0000", "n": 1, "pin": 99}, {"pw": "", "n": 2, "pin": 0}, {"n": 3}]},
+         "items": [{"pw": "item-secret-0000", "n": 1, "pin": 99}, {"pw": "", "n": 2, "pin": 0}, {"n": 3}],
+         "tokens": [{"id": "tok-id-000001"}, {"id": "tok-id-000002", "private": "yes-public"}]},
         {"pw": "", "pin": 0, "flag": False, "sub": {"key": 0, "on": True, "inner": {"tok": ""}}, "items": []},
         {"pw": "x", "pin": -5, "sub": {"key": True, "inner": {"tok": "pässwörd-ünï"}, "rows": []},
          "items": [{"pw": "päss-ünï-item"}]},
@@ -232,7 +259,7 @@ def matrix_cases():
 
 def generate(rng, tier):
     cases = matrix_cases()
-    n_rand, n_dir = (500, 900) if tier == "quick" else (4000, 8000)
+    n_rand, n_dir = (400, 750) if tier == "quick" else (4000, 8000)
     for _ in range(n_rand):
         c = _base.rcase(rng, "C01", 8 if tier == "quick" else 16)
         boost(rng, c, 0.35)
@@ -390,10 +417,12 @@ def xc_value(rng, kind, tag):
     if kind == "strs":
         return [] if empty else ["xc-str-%s-%d" % (tag, i) for i in range(rng.choice([1, 2]))] + rng.choice([[], [""]])
     if kind == "dict":
-        return {} if empty else {"xc-dkey-%s-%d" % (tag, i): rng.choice([0, 5, 99]) for i in range(rng.choice([1, 2]))}
+        return {} if empty else {rng.choice(["xc-dkey-%s-%d" % (tag, i), "password-%s-%d" % (tag, i), "api_key_%s_%d" % (tag, i)]):
+                                 rng.choice([0, 5, 99]) for i in range(rng.choice([1, 2]))}
     if kind == "ulist":
         return [] if empty else rng.choice([[1, "xc-ulist-%s" % tag], ["xc-ulist-%s" % tag, None, True], [0]])
-    return {} if empty else rng.choice([{"xc-ukey-%s" % tag: "xc-uval-%s" % tag}, {"a": [1, "xc-uval-%s" % tag]}, {"z": 0}])
+    return {} if empty else rng.choice([{"xc-ukey-%s" % tag: "xc-uval-%s" % tag}, {"a": [1, "xc-uval-%s" % tag]}, {"z": 0},
+                                        {"password": "xc-uval-%s" % tag, "token": 5, "secret": {"api_key": "xc-uval2-%s" % tag}}])
 
 
 def xc_spec(rng, fields, fixed=None):
@@ -414,6 +443,8 @@ def xc_spec(rng, fields, fixed=None):
             sens = False                  # the list field itself is not sensitive: its items' fields are
         place = rng.choice(places) if fixed is None else places[n % len(places)]
         name = "xc%d_%s" % (n, kind.replace(":", "_"))
+        if not sens and kind not in ("dcfgs",) and rng.random() < 0.5:
+            name = "xc%d_%s" % (n, rng.choice(SECRETISH))    # a secret-looking name on a field that is not declared sensitive
         spec.append((place, name, kind, sens, xc_value(rng, kind, "%d" % n)))
     return spec
 
@@ -1203,13 +1234,23 @@ def classify(c, msg):
 def sens_places(fields, depth=0, in_list=False, out=None):
     out = set() if out is None else out
     for k, nd in fields:
+        where = "list-item" if in_list else "root" if depth == 0 else "nested"
+        looks = k in SECRETISH or k in SECRETISH_SUB or k in SECRETISH_LIST
         if nd["t"] == "leaf":
             if nd["sensitive"]:
-                out.add("sensitive@" + ("list-item" if in_list else "root" if depth == 0 else "nested"))
+                out.add("sensitive@" + where)
                 out.add("sensitive:" + nd["kind"][0])
+                if not looks:
+                    out.add("neutral-name-sensitive@" + where)
+            elif looks:
+                out.add("secret-looking-name-not-sensitive@" + where)
         elif nd["t"] == "sub":
+            if looks:
+                out.add("secret-looking-name:sub-configuration@" + where)
             sens_places(nd["fields"], depth + 1, in_list, out)
         else:
+            if looks:
+                out.add("secret-looking-name:list@" + where)
             sens_places(nd["fields"], depth + 1, True, out)
     return out
 
